@@ -220,9 +220,69 @@ func c09ExportShapes() []string {
 	}
 }
 
+// cyclicFreeze: freeze applied to structures that contain themselves, also through shallow-immutable wrappers (an
+// immutable array shares the storage of the array it was made from, so it can be made to contain itself). Nothing
+// mutable may be reachable from the result, and a write through the result must fail. Only identity-safe observations
+// are made (no rendering, copying or comparing of the cyclic values: see the C05 finding).
+var c09CyclicFreeze = []struct{ src, write string }{
+	{"a := [1, 2]; w := immutable([a]); a[1] = w; f := freeze(w)", "f[0][1][0][0] = 99"},
+	{"a := [1, 2]; w := immutable([a]); a[1] = w; f := freeze(a)", "f[1][0][0] = 99"},
+	{"a := [0]; i := immutable(a); a[0] = i; f := freeze(i)", "f[0][0] = 99"},
+	{"m := {}; w := immutable({m: m}); m.w = w; f := freeze(w)", "f.m.w.m.z = 99"},
+	{"m := {}; w := immutable({m: m}); m.w = w; f := freeze(m)", "f.w.m.z = 99"},
+	{"a := [0]; b := {x: a}; w := immutable([b]); a[0] = w; f := freeze(w)", "f[0].x[0][0].y = 99"},
+	{"a := [0, 0]; w1 := immutable([a]); w2 := immutable({k: w1}); a[0] = w2; a[1] = w1; f := freeze(w2)", "f.k[0][1][0][0] = 99"},
+	{"a := [0]; a[0] = a; f := freeze(a)", "f[0][0] = 99"},
+	{"a := {}; b := {p: a}; a.p = b; f := freeze(a)", "f.p.p.q = 99"},
+	{"a := [0]; w := immutable({arr: a}); a[0] = [w, [w]]; f := freeze(w)", "f.arr[0][1][0].arr[0] = 99"},
+}
+
+func (c *c09) cyclicFreeze(r *fw.Rec) {
+	for _, p := range c09CyclicFreeze {
+		src := "f := undefined\nif step == 0 { " + strings.Replace(p.src, "f := ", "f = ", 1) + " }\nif step == 1 { " + p.write + " }\n"
+		s := tengo.NewScript([]byte(src))
+		_ = s.Add("step", 0)
+		cp, err := s.Compile()
+		detail := map[string]interface{}{"script": src}
+		if err != nil {
+			r.Inc("compile-error(harness):" + trunc(firstLine(err.Error()), 70))
+			continue
+		}
+		if e := safely(func() error { return cp.RunContext(bg) }); e != nil {
+			detail["error"] = e.Error()
+			r.Violate("cyclic-freeze:failed", "freezing a structure that contains itself failed", detail)
+			continue
+		}
+		r.Eval()
+		f := cp.Get("f").Object()
+		switch f.(type) {
+		case *tengo.ImmutableArray, *tengo.ImmutableMap:
+		default:
+			detail["type"] = f.TypeName()
+			r.Violate("cyclic-freeze:not-immutable", "the result of freeze is not of an immutable type", detail)
+			continue
+		}
+		if where := mutableReachable(f, "f", map[tengo.Object]bool{}); where != "" {
+			detail["reachable"] = where
+			r.Violate("freeze:mutable-reachable", "a mutable container is reachable from the result of freeze", detail)
+			continue
+		}
+		_ = cp.Set("step", 1)
+		if e := safely(func() error { return cp.RunContext(bg) }); e == nil {
+			detail["write"] = p.write
+			r.Violate("cyclic-freeze:write-accepted", "a write through the result of freeze succeeded", detail)
+			continue
+		}
+		r.Inc("cyclic-freeze-checked")
+	}
+}
+
 func (c *c09) RunCase(r *fw.Rec, cs fw.Case) {
 	if cs.Index == 0 {
 		c.errPayloadProbes(r)
+	}
+	if cs.Index == 1 {
+		c.cyclicFreeze(r)
 	}
 	rng := cs.Rng("c09")
 	family := cs.Index % 6
@@ -406,7 +466,7 @@ func c09OpKind(op string) string {
 }
 
 func (c *c09) Finish(m *fw.Merged, tier string) {
-	for _, k := range []string{"family:immutable-expr", "family:freeze", "family:module-export", "family:builtin-module", "freeze-laws-checked", "step:ok", "step:error"} {
+	for _, k := range []string{"family:immutable-expr", "family:freeze", "family:module-export", "family:builtin-module", "freeze-laws-checked", "cyclic-freeze-checked", "step:ok", "step:error"} {
 		if m.Counters[k] == 0 {
 			m.Fail("never observed: " + k)
 		}
